@@ -137,7 +137,7 @@ macro_rules! rel_equals_abs {
                     "C12.rel_as_abs_getters[base]"
                 );
                 let n_in = a.input_frames_next();
-                $nd.assume(n_in <= $inlen);
+                $crate::fit!($nd, n_in <= $inlen, "C12.demand_fits_scenario_bound[base]");
                 let mut xin = [0.0f64; $inlen];
                 let mut i = 0;
                 while i < $inlen {
@@ -506,7 +506,7 @@ harnesses! {
                 check!(a.output_frames_next() == c, "C12.chunk_getter[base]");
                 check!(a.output_frames_max() == 4, "C12.chunk_max_unchanged[base]");
                 let n_in = a.input_frames_next();
-                nd.assume(n_in <= 12);
+                crate::fit!(nd, n_in <= 12, "C12.demand_fits_scenario_bound[base]");
                 let xin = [1.0f64; 12];
                 let mut o = [SENT; 4];
                 let r = a.process_into_buffer(&[&xin[..n_in]], &mut [&mut o[..]], None);
